@@ -77,7 +77,9 @@ def build(lean_targets, need_go=True, log=print):
             res.gofacts_ok, res.gofacts_msg = False, out
         else:
             gen = os.path.join(LEAN, "Orda", "Gen", "Generated.lean")
-            rc, out = sh([gf, "-repo", REPO, "-out", gen + ".new"], env=GOENV)
+            rc, out = sh([gf, "-repo", REPO, "-out", gen + ".new", "-props", os.path.join(VERIF, "properties.jsonl"),
+                          "-shape-out", os.path.join(LEAN, "Orda", "Gen", "Shape.lean"),
+                          "-shape-json", os.path.join(WORK, "shape.json")], env=GOENV)
             if rc != 0:
                 res.gofacts_ok, res.gofacts_msg = False, out
             else:
@@ -98,7 +100,14 @@ def build(lean_targets, need_go=True, log=print):
         # 3. Go harness against /repo's working tree (the module's replace directives point there)
         if need_go:
             tags = os.environ.get("VERIF_GOTAGS", "verif")
-            rc, out = sh(["go", "build", "-tags", tags, "-o", os.path.join(BIN, "ordadrive"), "./cmd/ordadrive"],
+            modargs = []
+            if os.path.realpath(REPO) != "/repo":
+                # another copy of the repository (VERIF_REPO): same module file with the replace directives redirected
+                alt = os.path.join(WORK, "go.alt.mod")
+                open(alt, "w").write(open(os.path.join(HARNESS, "go.mod")).read().replace("=> /repo", "=> " + os.path.realpath(REPO)))
+                shutil.copy(os.path.join(HARNESS, "go.sum"), os.path.join(WORK, "go.alt.sum"))
+                modargs = ["-modfile", alt]
+            rc, out = sh(["go", "build"] + modargs + ["-tags", tags, "-o", os.path.join(BIN, "ordadrive"), "./cmd/ordadrive"],
                          cwd=HARNESS, env=GOENV, timeout=1800)
             res.go_log = out
             res.go_ok = rc == 0
@@ -107,6 +116,28 @@ def build(lean_targets, need_go=True, log=print):
         fcntl.flock(lock, fcntl.LOCK_UN)
         lock.close()
     return res
+
+
+def shape_diff(files=None):
+    """functions of the anchored source files whose normalised text differs from the committed expectation
+    (tools/gofacts/expected_shape.json): [(file, function, unified diff)]"""
+    import difflib
+    try:
+        exp = json.load(open(os.path.join(VERIF, "tools", "gofacts", "expected_shape.json")))
+        cur = json.load(open(os.path.join(WORK, "shape.json")))
+    except Exception as e:
+        return [("?", "?", "cannot read shape files: %s" % e)]
+    out = []
+    for f in sorted(set(exp) | set(cur)):
+        if files is not None and f not in files:
+            continue
+        a, b = exp.get(f) or {}, cur.get(f) or {}
+        for fn in sorted(set(a) | set(b)):
+            if a.get(fn) != b.get(fn):
+                d = "\n".join(difflib.unified_diff((a.get(fn) or "").splitlines(), (b.get(fn) or "").splitlines(),
+                                                   "expected", "current", lineterm="", n=2))
+                out.append((f, fn, d[:3000]))
+    return out
 
 
 def theorems_of(module):
@@ -165,7 +196,7 @@ def audit(modules, log=print):
     return obligations, discharged, sorted(axioms), problems
 
 
-def run_slice(profile, cases, seed, scratch, extra=(), timeout=1800):
+def run_slice(profile, cases, seed, scratch, extra=(), timeout=1800, start=0):
     """one correspondence slice: harness executes the real code, the model runs the same trace.
     If the code under test takes the harness process down (a Go panic in a goroutine of the server
     cannot be recovered), the trace ends with the `intent` line of the request that did it: that
@@ -173,10 +204,10 @@ def run_slice(profile, cases, seed, scratch, extra=(), timeout=1800):
     trace = os.path.join(scratch, "%s_%d.trace" % (profile, seed))
     stats = trace + ".stats"
     env = dict(os.environ, GOMEMLIMIT="4GiB")
-    start, crashes = 0, 0
+    first, crashes = start, 0
     while True:
         cmd = [os.path.join(BIN, "ordadrive"), "-profile", profile, "-cases", str(cases), "-seed", str(seed),
-               "-out", trace, "-stats", stats, "-from", str(start)] + (["-append"] if start else []) + list(extra)
+               "-out", trace, "-stats", stats, "-from", str(start)] + (["-append"] if start > first else []) + list(extra)
         rc, out = sh(cmd, timeout=timeout, env=env)
         if rc == 0:
             break
